@@ -7,6 +7,7 @@ import (
 	"bytes"
 	"fmt"
 	"io"
+	"os"
 	"sort"
 
 	"seehuhn.de/go/sfnt"
@@ -76,7 +77,17 @@ var (
 )
 
 var famNames = []string{"writer", "truncated", "failing-reader", "bad-sector"}
-var readerNames = []string{"ReaderAt", "ReaderAt(EOF-with-data)", "Reader(streaming)"}
+var readerNames = []string{"ReaderAt", "ReaderAt(EOF-with-data)", "Reader(streaming)", "ReaderAt+Size()(section of a container)"}
+
+// sectionReader is a ReaderAt that also reports a Size: the declared length
+// of a font embedded in a container, whether or not the container still holds
+// all of it.
+type sectionReader struct {
+	*simio.ReaderAt
+	declared int64
+}
+
+func (s sectionReader) Size() int64 { return s.declared }
 
 func buildCorpus(tier string, seed uint64) {
 	add := func(name string, f *sfnt.Font) {
@@ -108,9 +119,42 @@ func buildCorpus(tier string, seed uint64) {
 		}
 		add(fmt.Sprintf("gen%02d-%s", i, kind), f)
 	}
+	// a generated TrueType font whose physically last table is raw bytes
+	// (gasp): a cut inside it is invisible to every table decoder
+	{
+		t := tape.New(tape.CaseSeed(seed, "C18-corpus-gasp", 0))
+		f := simgen.GenFont(t, simgen.KindTrueType, 0)
+		o := f.Outlines.(*glyf.Outlines)
+		if o.Tables == nil {
+			o.Tables = map[string][]byte{}
+		}
+		o.Tables["gasp"] = t.Bytes(40)
+		f.Gsub, f.Gpos, f.Gdef = nil, nil, nil
+		if f.CreationTime.IsZero() && f.ModificationTime.IsZero() {
+			f.CreationTime = f.CreationTime.AddDate(30, 0, 0)
+		}
+		add("gen-truetype-raw-last-table", f)
+	}
+	// the original Go font files as they ship (table order of their producer:
+	// the last table is the raw prep program), for the read families only
+	nRaw := 2
+	if tier == "thorough" {
+		nRaw = 12
+	}
+	for i := 0; i < nRaw; i++ {
+		corpus = append(corpus, &corpusFile{name: simgen.GoFontNames[i] + ".ttf(original bytes)", file: simgen.GoFontData(i)})
+	}
 	for _, cf := range corpus {
 		cf.ref = make([][]byte, len(writeOps))
 		cf.calls = make([][]simio.WriteCall, len(writeOps))
+		if cf.font == nil {
+			dir, err := simgen.ParseDirectory(cf.file)
+			if err != nil {
+				panic(err)
+			}
+			cf.dir = dir
+			continue
+		}
 		for oi, op := range writeOps {
 			if !op.ok(cf.font) {
 				continue
@@ -225,6 +269,11 @@ func buildPlan(tier string, seed uint64) {
 			for _, b := range boundaryPoints(cf, oi, 1) {
 				bset[b] = true
 			}
+			// real operating-system files as destination: a full disk, a file
+			// that cannot be written, and a healthy file
+			for mode := 5; mode <= 7; mode++ {
+				plan = append(plan, planEntry{fi, 0, oi, 0, mode})
+			}
 			for _, k := range ks {
 				plan = append(plan, planEntry{fi, 0, oi, k, 0})
 				if bset[k] {
@@ -249,7 +298,7 @@ func buildPlan(tier string, seed uint64) {
 		}
 		for _, k := range ks {
 			for fam := 1; fam <= 3; fam++ {
-				for rop := 0; rop < 3; rop++ {
+				for rop := 0; rop < 4; rop++ {
 					if fam == 3 && rop == 2 {
 						continue // a streaming reader has no "sector": same as fam 2
 					}
@@ -315,7 +364,88 @@ func run(c *wk.Case) {
 	}
 }
 
+var osModes = map[int]string{5: "/dev/full (disk full: every write fails)", 6: "file opened read-only (every write fails)", 7: "healthy temporary file"}
+
+// runOSFile writes to a real *os.File: library code may treat files
+// differently from other writers.
+func runOSFile(c *wk.Case, cf *corpusFile, e planEntry) {
+	op := writeOps[e.op]
+	ref := cf.ref[e.op]
+	loc := "writer/" + op.name + "/os.File"
+	c.Sample = map[string]any{"file": cf.name, "family": "writer: real os.File destination", "operation": op.name, "destination": osModes[e.mode]}
+	c.Logf("file %s by %s into %s", cf.name, op.name, osModes[e.mode])
+	var fd *os.File
+	var err error
+	var tmp string
+	switch e.mode {
+	case 5:
+		fd, err = os.OpenFile("/dev/full", os.O_WRONLY, 0)
+		if err != nil {
+			c.Count("dev_full_unavailable", 1)
+			c.Trivial()
+			return
+		}
+	default:
+		t, terr := os.CreateTemp("", "c18-*.otf")
+		if terr != nil {
+			c.Count("tempfile_unavailable", 1)
+			c.Trivial()
+			return
+		}
+		tmp = t.Name()
+		defer os.Remove(tmp)
+		if e.mode == 6 {
+			t.Close()
+			fd, err = os.Open(tmp) // read-only descriptor
+			if err != nil {
+				c.Trivial()
+				return
+			}
+		} else {
+			fd = t
+		}
+	}
+	defer fd.Close()
+	var n int64
+	pi := c.Guard(func() { n, err = op.run(cf.font, fd) })
+	if pi != nil {
+		c.FailPanic(loc, pi)
+	}
+	c.Class(fmt.Sprintf("writer|%s|%s|os.File mode %d", op.name, kindOf(cf.font), e.mode))
+	switch e.mode {
+	case 5, 6:
+		c.Count("fault_os_file_write_refused", 1)
+		if err == nil {
+			c.Fail("write-error-lost", loc, "%s on %s into %s: every write fails, yet the call returned a nil error (count %d)", op.name, cf.name, osModes[e.mode], n)
+		}
+		if op.hasCount && n != 0 {
+			c.Fail("write-count", loc, "%s on %s into %s: the destination accepted 0 bytes, the call reports %d", op.name, cf.name, osModes[e.mode], n)
+		}
+	case 7:
+		c.Count("fault_free_writes", 1)
+		if err != nil {
+			c.Fail("write-spurious-error", loc, "%s on %s into a healthy file failed: %v", op.name, cf.name, err)
+		}
+		fd.Sync()
+		got, rerr := os.ReadFile(tmp)
+		if rerr != nil {
+			c.Trivial()
+			return
+		}
+		if op.hasCount && n != int64(len(got)) {
+			c.Fail("write-count", loc, "%s on %s: returned count %d, the file has %d bytes", op.name, cf.name, n, len(got))
+		}
+		if !bytes.Equal(got, ref) {
+			c.Fail("write-not-deterministic", loc, "%s on %s: the bytes in the file differ from those written to an in-memory destination", op.name, cf.name)
+		}
+	}
+}
+
 func runWriter(c *wk.Case, cf *corpusFile, e planEntry) {
+	if e.mode >= 5 {
+		runOSFile(c, cf, e)
+		return
+	}
 	op := writeOps[e.op]
 	ref := cf.ref[e.op]
 	L := int64(len(ref))
@@ -401,12 +531,16 @@ func runReader(c *wk.Case, cf *corpusFile, e planEntry) {
 	var ra *simio.ReaderAt
 	var rs *simio.Reader
 	switch e.op {
-	case 0, 1:
+	case 0, 1, 3:
 		ra = simio.NewReaderAt(data)
 		ra.FailFrom = failFrom
 		ra.FailTo = failTo
-		ra.EOFStyle = e.op
+		ra.EOFStyle = e.op % 2
 		r = ra
+		if e.op == 3 {
+			ra.EOFStyle = 0
+			r = sectionReader{ra, L}
+		}
 	default:
 		rs = simio.NewReader(data, c.T)
 		rs.FailFrom = failFrom
@@ -430,7 +564,11 @@ func runReader(c *wk.Case, cf *corpusFile, e planEntry) {
 	if err != nil {
 		outcome = "error"
 	}
-	c.Class(fmt.Sprintf("%s|%s|%s|%s|%s", famNames[e.fam], readerNames[e.op], kindOf(cf.font), region(cf, e.k), outcome))
+	kind := "truetype(original file)"
+	if cf.font != nil {
+		kind = kindOf(cf.font)
+	}
+	c.Class(fmt.Sprintf("%s|%s|%s|%s|%s", famNames[e.fam], readerNames[e.op], kind, region(cf, e.k), outcome))
 	switch e.fam {
 	case 1:
 		c.Count("fault_truncation", 1)
